@@ -84,7 +84,7 @@ def gen_case(rng):
         t = rng.randint(1, 5)
         d = rng.choice([1, 1, 2, 3])
         L = t + rng.randint(1, 10)
-        return {"kind": "seqdiff", "t": t, "univariate": d == 1 and rng.random() < 0.7,
+        return {"kind": "seqdiff", "t": t, "prehistory": rng.choice([0, 0, 1, 2]), "univariate": d == 1 and rng.random() < 0.7,
                 "as_float": rng.random() < 0.3,
                 "seq": [[rng.randint(-50, 50) for _ in range(d)] for _ in range(L)]}
     width = rng.randint(1, 8)
@@ -117,7 +117,7 @@ def gen_case(rng):
         K = ["differences", start, step, rng.randint(1, 3)]
     else:
         K = ["matrix", [[rng.randint(-3, 3) for _ in range(ncols)] for _ in range(rng.randint(1, 3))]]
-    return {"kind": "windows", "width": width, "stride": stride, "sample": sample, "K": K, "pw": pw,
+    return {"kind": "windows", "prehistory": rng.choice([0, 0, 0, 1]), "width": width, "stride": stride, "sample": sample, "K": K, "pw": pw,
             "pv": rng.randint(-2, 2), "univariate": d == 1 and rng.random() < 0.7, "as_float": rng.random() < 0.3,
             "seq": [[rng.randint(-50, 50) for _ in range(d)] for _ in range(L)]}
 
